@@ -56,9 +56,25 @@ func litReleasesFirst(lit *ir.Func, isRelease func(fn *ir.Func, root ast.Node) b
 	return !leak
 }
 
+// slotFuncs: every function unit of package syncer (roots of the expanded view set and their literals), with
+// goroutine bodies brought to where they are started; the two subnet-slot operations stay calls.
+func slotFuncs(c *Ctx) []*ir.Func {
+	acq, rel := subnetSlotFns(c)
+	vs := c.P.Views("syncer", ir.ExpandOpt{Key: "slots", GoLits: true, Stop: func(fn *types.Func) bool { return fn == acq || fn == rel }})
+	var out []*ir.Func
+	for _, f := range vs.Roots {
+		if f.Obj == acq || f.Obj == rel {
+			continue
+		}
+		out = append(out, f)
+		out = append(out, f.Lits...)
+	}
+	return out
+}
+
 func c18r1(c *Ctx) {
 	n := 0
-	for _, f := range c.P.MethodsOf("syncer", "Syncer") {
+	for _, f := range slotFuncs(c) {
 		g := f.Graph()
 		for _, node := range g.Nodes {
 			send, ok := node.AST.(*ast.SendStmt)
@@ -149,19 +165,39 @@ func sendBodyEdges(g *cfgx.Graph, sendNode *cfgx.Node, send *ast.SendStmt) []*cf
 // table: the one reporting a bool takes a slot, the one without results gives it back.
 func subnetSlotFns(c *Ctx) (acquire, release *types.Func) {
 	fld := c.P.Field("syncer", "Syncer", "inflightSubnet")
-	for _, f := range c.P.MethodsOf("syncer", "Syncer") {
+	var cands []*ir.Func
+	for _, raw := range c.P.MethodsOf("syncer", "Syncer") {
+		// with lock-bracket helpers and the closures handed to them expanded
+		f := c.P.Expand(raw, ir.ExpandOpt{Key: "unit"})
+		isTable := func(fn *ir.Func, e ast.Expr) bool {
+			return fn.FieldOf(e) == fld || fn.FieldOf(origin(fn, e)) == fld
+		}
 		writes := false
-		for _, w := range f.WritesIn(f.Body, false) {
-			if ix, ok := ast.Unparen(w.LHS).(*ast.IndexExpr); ok && f.FieldOf(ix.X) == fld {
-				writes = true
+		for _, fn := range append([]*ir.Func{f}, f.Lits...) {
+			for _, w := range fn.WritesIn(fn.Body, false) {
+				if ix, ok := ast.Unparen(w.LHS).(*ast.IndexExpr); ok && isTable(fn, ix.X) {
+					writes = true
+				}
+			}
+			for _, call := range fn.Calls(false) {
+				if id, ok := call.Expr.Fun.(*ast.Ident); ok && id.Name == "delete" && len(call.Expr.Args) == 2 && isTable(fn, call.Expr.Args[0]) {
+					writes = true
+				}
 			}
 		}
-		for _, call := range f.Calls(false) {
-			if id, ok := call.Expr.Fun.(*ast.Ident); ok && id.Name == "delete" && len(call.Expr.Args) == 2 && f.FieldOf(call.Expr.Args[0]) == fld {
-				writes = true
+		if writes {
+			cands = append(cands, raw)
+		}
+	}
+	// a method that merely calls one of the others (the peer loop with the release expanded into it) is not a slot operation
+	for _, f := range cands {
+		wraps := false
+		for _, g := range cands {
+			if g != f && len(f.CallsTo(true, g.Obj)) > 0 {
+				wraps = true
 			}
 		}
-		if !writes {
+		if wraps {
 			continue
 		}
 		res := f.Obj.Type().(*types.Signature).Results()
@@ -187,12 +223,8 @@ func subnetSlotFns(c *Ctx) (acquire, release *types.Func) {
 func c18r2(c *Ctx) {
 	acq, rel := subnetSlotFns(c)
 	n := 0
-	// every function of the package with its helpers expanded; the two slot operations stay calls
-	vs := c.P.Views("syncer", ir.ExpandOpt{Key: "subnet-slot", Stop: func(fn *types.Func) bool { return fn == acq || fn == rel }})
-	for _, f := range vs.Roots {
-		if f.Obj == acq || f.Obj == rel {
-			continue
-		}
+	// every function unit of the package with its helpers and goroutine bodies expanded; the two slot operations stay calls
+	for _, f := range slotFuncs(c) {
 		g := f.Graph()
 		for _, call := range f.CallsTo(false, acq) {
 			n++
@@ -503,8 +535,15 @@ func c18r6(c *Ctx) {
 		mt, ok := t.Underlying().(*types.Map)
 		return ok && ir.IsNamed(mt.Elem(), ir.PkgPath("syncer"), "Peer")
 	})
-	methods := c.P.MethodsOf("syncer", "Syncer")
-	ls := NewLockset(c.P, mu, methods)
+	// the Syncer's methods with helpers (a shared limit check, lock brackets) expanded
+	vs := c.P.Views("syncer", ir.ExpandOpt{Key: "all"})
+	var methods []*ir.Func
+	for _, m := range c.P.MethodsOf("syncer", "Syncer") {
+		if !vs.Absorbed[m] {
+			methods = append(methods, vs.Of(m))
+		}
+	}
+	ls := NewLocksetV(c.P, mu, methods, vs.Of)
 	n := 0
 	for _, m := range methods {
 		for _, f := range append([]*ir.Func{m}, m.Lits...) {
